@@ -599,7 +599,7 @@ class Scenario:
 
     def oneshot(self, predicted=True):
         r = self.r
-        size = r.choice([0, 1, 6, 7, 100, 1000, 1 << 16, 131072, r.randint(1, 131072)]) if predicted else r.randint(131073, 1 << 21)
+        size = r.choice([0, 1, 6, 7, 8, 9, 100, 1000, 1 << 16, 131072, r.randint(1, 131072)]) if predicted else r.randint(131073, 1 << 21)
         self.emit("oneshot %d %d" % (self.slice(max(size, 1)), size), kind="oneshot")
 
     def stream(self, big=False):
@@ -628,7 +628,7 @@ class Scenario:
         chunks = []
         pos = self.r.randint(0, self.arena // 2)
         for i in range(nch):
-            n = r.choice([131071, 100000, 1, 7, 1000, r.randint(1, 131071)]) if total is None else min(131071, max(1, total // nch))
+            n = r.choice([131071, 100000, 1, 6, 7, 8, 9, 1000, r.randint(1, 131071)]) if total is None else min(131071, max(1, total // nch))
             if r.random() < 0.25 or pos + n >= self.arena:
                 pos = self.slice(n)
             chunks += [pos, n]
@@ -743,7 +743,7 @@ def predict_frames(sc, out_lines, freq, K):
             if t in ("F", "B"):
                 params = cur["params"]
                 if prev is not None:
-                    model.append((108, ints(prev["W"]) + [int(prev["lde"]), int(prev["dms"]), int(prev["fnc"]), int(prev["ntu"])], ("inject",)))
+                    model.append((108, ints(prev["W"]) + [int(prev["lde"]), int(prev["dms"]), int(prev["fnc"]), int(prev["ntu"]), int(prev.get("ofs", 1))], ("inject",)))
                 dm, doff, dsz = ints(d["dict"])
                 fw = params.get(P_FORCEWIN, 0) if t == "F" else 0
                 drp = params.get(P_DETREF, 0) if t == "F" else 0
@@ -803,6 +803,8 @@ def compare_prediction(mout, expect):
         if "LW" in d:
             if m[13] != 1 or m[14:20] != ints(d["LW"]) or m[20] != int(d["llde"]):
                 bad.append((desc, "ldm window", m[13:21], ints(d["LW"]) + [int(d["llde"])])); continue
+        if m[-2] != int(d["ofs"]):
+            bad.append((desc, "opt.litLengthSum == 0", m[-2], int(d["ofs"]))); continue
         if m[-1] != 1:
             bad.append((desc, "model observer: an index wrapped", m[-1], 1))
     return bad
